@@ -1,6 +1,7 @@
 package sim
 
 import (
+	"encoding/hex"
 	"fmt"
 	"sort"
 	"strconv"
@@ -518,7 +519,23 @@ func stmtKinds(ss []Stmt, set map[string]bool) {
 
 // ------------------------------------------------------------------ commands
 
+// cmdBytesPrefix marks a command given as raw bytes (hex), for texts JSON cannot carry: commands
+// that are not valid UTF-8. cmdText gives the text itself.
+const cmdBytesPrefix = "x-bytes:"
+
+func cmdText(c string) string {
+	if strings.HasPrefix(c, cmdBytesPrefix) {
+		if b, err := hex.DecodeString(c[len(cmdBytesPrefix):]); err == nil {
+			return string(b)
+		}
+	}
+	return c
+}
+
+func cmdBytes(text string) string { return cmdBytesPrefix + hex.EncodeToString([]byte(text)) }
+
 func cmdSegs(c string) []string {
+	c = cmdText(c)
 	if c == "/" {
 		return nil
 	}
